@@ -103,6 +103,7 @@ func (t *tXn) copyOnWriteSearch(rootNode *node, path string) searchResult {
 			panic(err)
 		}
 		t.writable = lru
+		simTuneCache(lru)
 	}
 
 	current := rootNode
